@@ -21,7 +21,7 @@ Consume(name) == l <= Len(Trace) /\ ev.ev = name /\ l' = l + 1
 SetOf(seq) == {seq[i] : i \in DOMAIN seq}
 ObsRes(a) == IF a.res = "accept" THEN "accept" ELSE "reject"
 StateMatches ==
-  /\ key' = ev.st.key /\ clock' = ev.st.clock /\ st' = ev.st.st
+  /\ key' = ev.st.key /\ sleepon' = ev.st.sleepon /\ clock' = ev.st.clock /\ st' = ev.st.st
   /\ \A i \in AllIds : cache'[i] = ev.st.cache[i]
   /\ pend' = ev.st.pend
 
@@ -31,6 +31,7 @@ TraceReceive ==
        \/ Receive(ev.path, ev.from, c, ev.loop)
        \/ DevQueuedPathUnverified(ev.path, ev.from, c, ev.loop)
        \/ DevMarkSeenBeforeVerify(ev.path, ev.from, c, ev.loop)
+       \/ DevPendingBeforeVerify(ev.path, ev.from, c, ev.loop)
   /\ ObsRes(last') = ev.res /\ last'.fwd = SetOf(ev.fwd)
   /\ StateMatches
 
@@ -55,7 +56,8 @@ TraceLocalIssue ==
 
 TraceReset ==
   /\ Consume("Reset")
-  /\ key' = ev.key /\ clock' = 0 /\ cache' = [i \in AllIds |-> NoEntry] /\ st' = "awake" /\ pend' = NoPend
+  /\ key' = ev.key /\ sleepon' = TRUE /\ scanning' = FALSE /\ snap' = [i \in AllIds |-> NoEntry]
+  /\ clock' = 0 /\ cache' = [i \in AllIds |-> NoEntry] /\ st' = "awake" /\ pend' = NoPend
   /\ acted' = [i \in AllIds |-> 0] /\ bad' = 0 /\ poisoned' = {} /\ suppressed' = FALSE /\ devsteps' = 0
   /\ last' = [act |-> "Init"]
 
